@@ -3,4 +3,4 @@
 Require Extraction.
 Require Import ExtrOcamlBasic.
 Require Import Model.Base Model.Includes.
-Separate Extraction Base.base_roots Base.outcome Includes.run_project Includes.canon_idempotent_b Includes.depth_ok_b.
+Separate Extraction Base.base_roots Base.outcome Includes.run_project Includes.canon_idempotent_b Includes.depth_ok_b Includes.dirs_revisited_b.
